@@ -1,4 +1,5 @@
 import Pokerface.Proofs.FlowGhost
+import Pokerface.Proofs.GapsAClose
 /-
   C05 — A betting round closes exactly when it should.
 
@@ -193,5 +194,90 @@ example : ((start exCfg).1.run [.ready, .payBlinds, .ready, .act none .call 0, .
       .act none .check 0, .next]).round = .flop ∧
     ((start exCfg).1.run [.ready, .payBlinds, .ready, .act none .call 0, .act none .call 0, .act none .call 0,
       .act none .check 0, .next]).movableCount = 4 := by decide
+
+/-! ## Rounds closed without any player action (gap found by review)
+
+  `no_premature_close` speaks of a round that is closed by a player action (`g.event = .roundStarted`).  A round
+  can also be closed with no action at all: by the `ReadyForAll` that would open the preflop round when nobody
+  can move (`StartRound`), and by the `Next` that deals a later street when fewer than two players have chips
+  (`PrepareRound`).  The theorems below cover these closings, so that sentence 1, first half, holds for EVERY
+  transition into `RoundClosed`. -/
+
+/-- Sentence 1, first half ("a betting round is never closed while a non-folded player with chips has put in
+    less than the wager to match …"), for the rounds that are closed WITHOUT any action: when an accepted
+    operation applied to a reachable state that waits for `ReadyForAll` or stands at a closed round ends in
+    `RoundClosed` with at least two players left, every non-folded seat with chips has exactly the wager to
+    match on the table.  (The clause "or has not yet had a turn since that wager last went up" is void here: see
+    `skip_close_only` — either nobody has chips, or the wagers were just swept and the wager to match is 0, so it
+    has not gone up in this round.) -/
+theorem no_skip_close {g : Game} (h : Reachable g) (op : Op)
+    (he : g.event = .readyRequested ∨ g.event = .roundClosed) (hacc : (g.step op).2 = none)
+    (hc : (g.step op).1.event = .roundClosed) (h2 : 2 ≤ (g.step op).1.aliveCount) :
+    ∀ p ∈ (g.step op).1.players, p.fold = false → 0 < p.stack → p.wager = (g.step op).1.cw :=
+  skip_close_level g (inv_reachable h) (flow_reachable h) (by rcases he with he | he <;> rw [he] <;> simp) op hacc hc h2
+
+/-- The complete list of closings without action, from ANY reachable state that is not an open betting round
+    (also `AnteRequested`, `BlindsRequested`, `GameClosed`): an accepted operation that ends in `RoundClosed`
+    with two players left is
+    (a) the `ReadyForAll` of the preflop round, and then no non-folded seat has a chip (everybody is all-in by
+        the forced bets) — game.go `StartRound`; on later streets `ReadyForAll` never closes a round; or
+    (b) the `Next` after a closed preflop, flop or turn round that deals the following street while fewer than
+        two non-folded players have chips — game.go `PrepareRound`; then all wagers have been swept into the
+        pot accounts and the wager to match is 0.
+    `PayAnte`, `PayBlinds` and refused operations never end in a newly closed round. -/
+theorem skip_close_only {g : Game} (h : Reachable g) (hne : g.event ≠ .roundStarted) (op : Op)
+    (hacc : (g.step op).2 = none) (hc : (g.step op).1.event = .roundClosed) (h2 : 2 ≤ (g.step op).1.aliveCount) :
+    (op = .ready ∧ g.event = .readyRequested ∧ g.round = .preflop ∧ (g.step op).1.movableCount = 0) ∨
+    (op = .next ∧ g.event = .roundClosed ∧ (g.round = .preflop ∨ g.round = .flop ∨ g.round = .turn) ∧
+      (g.step op).1.movableCount ≤ 1 ∧ (∀ p ∈ (g.step op).1.players, p.wager = 0) ∧ (g.step op).1.cw = 0) :=
+  skip_close_cases g (inv_reachable h) (flow_reachable h) hne op hacc hc h2
+
+/-- Sentence 1, first half, for EVERY transition into `RoundClosed` (`no_premature_close` for closings by a
+    player action, `no_skip_close` / `skip_close_only` for the others), without reference to the ghost record:
+    whenever an accepted operation on a reachable state ends in `RoundClosed` with at least two players left,
+    every non-folded seat with chips has exactly the wager to match on the table. -/
+theorem every_close_level {g : Game} (h : Reachable g) (op : Op) (hacc : (g.step op).2 = none)
+    (hc : (g.step op).1.event = .roundClosed) (h2 : 2 ≤ (g.step op).1.aliveCount) :
+    ∀ p ∈ (g.step op).1.players, p.fold = false → 0 < p.stack → p.wager = (g.step op).1.cw := by
+  by_cases he : g.event = .roundStarted
+  · obtain ⟨gh, hG⟩ := greachable_of_reachable h
+    intro p hp hf hs
+    obtain ⟨j, hj⟩ := List.getElem?_of_mem hp
+    exact (no_premature_close hG he op hacc (by rw [hc]; simp) h2 j p hj hf hs).1
+  · exact skip_close_level g (inv_reachable h) (flow_reachable h) he op hacc hc h2
+
+/-! ### Non-vacuity of the closings without action -/
+
+/-- heads-up, blinds 5/10, the dealer (small blind) has 5 chips and the big blind 10: both are all-in by the blinds -/
+def exShort : Config :=
+  { opts := exCfg.opts,
+    seats := [{ bankroll := 5, dealer := true, sb := true, bb := false },
+              { bankroll := 10, dealer := false, sb := false, bb := true }] }
+
+/-- case (a): `ReadyForAll` closes the preflop round at once; hypotheses of `no_skip_close` -/
+example : let g := (start exShort).1.run [.ready, .payBlinds]
+    Reachable g ∧ g.event = .readyRequested ∧ g.round = .preflop ∧ (g.step .ready).2 = none ∧
+    (g.step .ready).1.event = .roundClosed ∧ (g.step .ready).1.aliveCount = 2 ∧ (g.step .ready).1.movableCount = 0 :=
+  ⟨⟨exShort, _, ⟨⟨by decide, by decide, by decide, by decide⟩⟩, by decide, rfl⟩, by decide⟩
+
+/-- case (b), one stack left: seat 3 is all-in for 30, seat 0 calls, the blinds fold, seat 3 passes; `Next` deals the flop and
+    closes it at once; seat 0 (70 behind, not folded) is level: wager 0 = wager to match 0 -/
+def exOneStack : List Op :=
+  [.ready, .payBlinds, .ready, .act none .allin 0, .act none .call 0, .act none .fold 0, .act none .fold 0,
+   .act none .pass 0]
+
+example : let g := (start exCfg).1.run exOneStack
+    Reachable g ∧ g.event = .roundClosed ∧ g.round = .preflop ∧ (g.step .next).2 = none ∧
+    (g.step .next).1.event = .roundClosed ∧ (g.step .next).1.round = .flop ∧ (g.step .next).1.aliveCount = 2 ∧
+    (g.step .next).1.movableCount = 1 ∧ (g.step .next).1.cw = 0 ∧
+    ((g.step .next).1.players.map fun p => (p.fold, p.stack, p.wager)) =
+      [(false, 70, 0), (true, 95, 0), (true, 90, 0), (false, 0, 0)] :=
+  ⟨⟨exCfg, _, exWF, by decide, rfl⟩, by decide⟩
+
+/-- case (b), no stack left: `exAllin` above (two all-ins, two folds) followed by `Next` -/
+example : let g := (start exCfg).1.run exAllin
+    Reachable g ∧ g.event = .roundClosed ∧ (g.step .next).2 = none ∧ (g.step .next).1.event = .roundClosed ∧
+    (g.step .next).1.aliveCount = 2 ∧ (g.step .next).1.movableCount = 0 :=
+  ⟨⟨exCfg, _, exWF, by decide, rfl⟩, by decide⟩
 
 end Pokerface.C05
